@@ -244,6 +244,8 @@ class Proto:
         self.held = {}
         self.summ = {}              # fn name -> frozenset of (T_exit, P_exit, retV)
         self.requires_held = set()
+        self._call_T = defaultdict(set)      # callee -> token states it is called in (for inferring owner-only helpers)
+        self.owner_helpers = set()           # functions inferred to be part of the owner's code from their call contexts
         self.entryP = {}            # fn name -> frozenset (join over call sites)
         self.NO = set()             # non-owner transitions (s, s')
         self.events = None
@@ -389,11 +391,22 @@ class Proto:
             # inner fixpoint on summaries / requires_held / entryP
             for it in range(12):
                 changed = False
+                self._call_T = defaultdict(set)
                 for f in fns:
                     old = (self.summ.get(f.name), f.name in self.requires_held)
                     self.analyse(f)
                     new = (self.summ.get(f.name), f.name in self.requires_held)
                     if old != new:
+                        changed = True
+                # a private function that writes the state and is only ever called by somebody who holds the queue is part of the owner's
+                # code (a "release and reschedule" wrapper shared by the runners): it is analysed as entered with the token held
+                for f in fns:
+                    if f.name in self.requires_held or f.is_closure or getattr(f, 'reachable', False):
+                        continue
+                    Ts = self._call_T.get(f.name)
+                    if Ts and Ts == {'H'} and self._writes_state(f):
+                        self.requires_held.add(f.name)
+                        self.owner_helpers.add(f.name)
                         changed = True
                 if not changed:
                     break
@@ -420,6 +433,15 @@ class Proto:
         self.rounds = rnd + 1
         self._check_external_handover(fns)
         return self
+
+    def _writes_state(self, fn):
+        for b in fn.blocks:
+            if b['cleanup']:
+                continue
+            for s_ in b['stmts']:
+                if s_['k'] == 'assign' and self.is_state_place(s_['pl']):
+                    return True
+        return False
 
     def _check_external_handover(self, fns):
         """A closure that takes or gives up the queue token is only understood when the analysis sees who calls it (a stored job, a
@@ -1315,7 +1337,13 @@ class Proto:
             return done(st, None)
         if name.endswith('Scheduler::reschedule_queue') or name.endswith('SchedulerCore::reschedule_queue'):
             x = st._replace(resched=0, act=st.act | 1)
-            return done(x, None)
+            wf = self.facts.fn(name)
+            if name.endswith('Scheduler::reschedule_queue') and wf is not None and name in self.touch and self._writes_state(wf):
+                # the thin wrapper has been given a part of the owner's exit sequence (it writes the state itself): analyse it as a callee
+                # like any other function that takes part in the protocol; the reschedule it ends with is still accounted for
+                st = x
+            else:
+                return done(x, None)
         if name.endswith('thread::Thread::unpark'):
             return done(st._replace(act=st.act | 2), None)
         if name.endswith('::schedule_thread'):
@@ -1351,6 +1379,7 @@ class Proto:
             outs = []
             for c in sorted(callees):
                 crh = c in self.requires_held
+                self._call_T[c].add(st.T)
                 if record:
                     self.events[('call', self._evn(fn), c)].add((st.T, crh))
                     if crh:
